@@ -6,6 +6,7 @@ import ast
 from ..astutil import attr_path, call_name, walk, src, dump
 from ..consteval import UNKNOWN, ClassRef
 from ..framework import rule
+from ..miniinterp import _is_logging_call
 from ..guards import branch_outcome
 from ..linexpr import Lin, atom_name, cmp_norm, lin
 from .C16 import struct_members
@@ -168,48 +169,17 @@ def d5_5(ctx):
     d5_17(ctx)
 
 
-@rule(P, "D5.6", "T-SPEC", floor=3)
+@rule(P, "D5.6", "T-WITNESS", floor=3)
 def d5_6(ctx):
-    """Member record = UINT info, UINT type, UDINT offset (8 bytes); BOOL -> bit number, others -> array length (+ Array type when non-zero)."""
-    sp = ctx.spec("logix_symbol")["template_member_record"]
-    lx = _lx(ctx)
-    fn = lx.methods["_parse_template_data_member_info"]
-    seq = _decode_sequence(ctx, fn, lx.module, fn.body)
-    names = [t for t, c in seq]
-    want = [f[1] for f in sp["fields"]]
-    binds = {}
-    for n in walk(fn):
-        if isinstance(n, ast.Assign) and isinstance(n.value, ast.Call) and isinstance(n.value.func, ast.Attribute) and n.value.func.attr == "decode":
-            binds[atom_name(n.targets[0])] = n.lineno
-        if isinstance(n, ast.Assign) and isinstance(n.value, ast.Dict):
-            for k, v in zip(n.value.keys, n.value.values):
-                if isinstance(v, ast.Call) and isinstance(v.func, ast.Attribute) and v.func.attr == "decode":
-                    binds["offset:" + str(ctx.folder.eval(k, lx.module))] = v.lineno
-    order_ok = "type_info" in binds and "typ" in binds and "offset:offset" in binds and binds["type_info"] < binds["typ"] < binds["offset:offset"]
-    tml = ctx.folder.module_value("pycomm3.const", "TEMPLATE_MEMBER_INFO_LEN")
-    ctx.check(names == want and order_ok and tml == sp["width"], ckey(lx.key + "._parse_template_data_member_info", "record"), fn, "info UINT, type UINT, offset UDINT = 8 bytes", f"member record decoded as {names} (info/type/offset order ok: {order_ok}); specification {want}, record width {tml} vs {sp['width']}", decoded=names)
-    bit = [n for n in walk(fn) if isinstance(n, ast.If) and isinstance(n.test, ast.Compare) and atom_name(n.test.left) == "data_type" and ctx.folder.eval(n.test.comparators[0], lx.module) == "BOOL"]
-    ok = False
-    if len(bit) == 1:
-        b = bit[0]
-        sb = any(isinstance(s, ast.Assign) and src(s.targets[0]).replace('"', "'") == "member['bit']" and atom_name(s.value) == "type_info" for s in b.body)
-        arr = [s for e in b.orelse for s in walk(e) if isinstance(s, ast.Assign) and src(s.targets[0]).replace('"', "'") == "member['array']" and atom_name(s.value) == "type_info"]
-        mk = [c for e in b.orelse for c in walk(e) if isinstance(c, ast.Call) and call_name(c) == "Array"]
-        kw = {k.arg: atom_name(k.value) for k in mk[0].keywords} if mk else {}
-        guarded = bool(mk) and isinstance(getattr(getattr(mk[0], "_parent", None), "_parent", None), ast.If) and atom_name(mk[0]._parent._parent.test) == "type_info"
-        ok = sb and len(arr) == 1 and kw == {"length_": "type_info", "element_type_": "type_class"} and guarded
-    ctx.check(ok, ckey(lx.key + "._parse_template_data_member_info", "info-field"), bit[0] if bit else fn, "BOOL members: info = bit number; others: info = array length, Array(length_=info) when non-zero", "interpretation of the member info field (bit number vs array length) changed")
-    # chunks of TEMPLATE_MEMBER_INFO_LEN over member_count records
-    ptd = lx.methods["_parse_template_data"]
-    il = [n for n in walk(ptd) if isinstance(n, ast.Assign) and atom_name(n.targets[0]) == "info_len"]
-    ok = len(il) == 1 and src(il[0].value).replace(" ", "").replace('"', "'") in ("template['member_count']*TEMPLATE_MEMBER_INFO_LEN", "TEMPLATE_MEMBER_INFO_LEN*template['member_count']")
-    tile = False
-    for n in walk(ptd):
-        if isinstance(n, ast.GeneratorExp) and isinstance(n.elt, ast.Subscript) and atom_name(n.elt.value) == "info_data":
-            g = n.generators[0]
-            i = atom_name(g.target)
-            tile = atom_name(n.elt.slice.lower) == i and lin(n.elt.slice.upper, lambda e: None) is not None and src(n.elt.slice.upper).replace(" ", "") == f"{i}+TEMPLATE_MEMBER_INFO_LEN" and [src(a).replace(" ", "") for a in g.iter.args] == ["0", "info_len", "TEMPLATE_MEMBER_INFO_LEN"]
-    ctx.check(ok and tile, ckey(lx.key + "._parse_template_data", "member-chunks"), ptd, "member records are member_count consecutive 8-byte chunks", "member info is not tiled into member_count chunks of TEMPLATE_MEMBER_INFO_LEN bytes")
+    """Member record = UINT info, UINT type, UDINT offset (8 bytes); BOOL -> bit number, others -> array length (+ Array type
+    when non-zero); the records are member_count consecutive 8-byte chunks paired positionally with the names.  Decided by
+    folding the record parser on witness records (D5.18) and `_parse_template_data` on witness templates (D5.13: the record
+    parser is a marker that identifies the chunk it was given); an earlier form compared the source text of the stores and of
+    the chunking generator."""
+    from .driver import d5_18
+
+    d5_18(ctx)
+    d5_13(ctx)
 
 
 @rule(P, "D5.7", "T-WITNESS", floor=3)
@@ -222,9 +192,11 @@ def d5_7(ctx):
     d5_13(ctx)
 
 
-@rule(P, "D5.8", "T-KEYS", floor=2)
+@rule(P, "D5.8", "T-WITNESS", floor=1)
 def d5_8(ctx):
-    """tags_json: every key whose value is a class / DataType instance is excluded; nested definitions are recursed."""
+    """tags_json: every key whose value is a class / DataType instance is excluded; nested definitions are recursed.  Decided by
+    folding the property on a witness tag table (two tags, a structure with a nested structure member) whose class-valued keys are
+    those the producers store classes under; an earlier form read the excluded set off a dict comprehension."""
     lx = _lx(ctx)
     fn = ctx.model.func(f"{LX}:LogixDriver.tags_json._copy_datatype")
     excl = None
@@ -244,16 +216,56 @@ def d5_8(ctx):
                 vs = src(v)
                 if k in ("type_class",) or "type_class" in vs and k not in ("data_type",) or atom_name(v) in ("type_class", "_type_class") or (isinstance(v, ast.Call) and call_name(v) in ("FixedSizeString", "StructTag", "Array")) or (isinstance(v, ast.Tuple) and "_struct_members" in vs):
                     classy.add(k)
-    ok = excl is not None and classy <= excl
-    ctx.check(ok, ckey(fn, "exclusions"), fn.node, f"class-valued keys {sorted(classy)} are all excluded", f"keys holding classes / DataType instances {sorted(classy - (excl or set()))} are not excluded from the JSON view (json.dumps fails)", excluded=sorted(excl or []), class_valued=sorted(classy))
-    rec = [c for c in walk(fn.node) if isinstance(c, ast.Call) and call_name(c) == "_copy_datatype"]
-    keys = sorted({src(c.args[0]).replace('"', "'") for c in rec})
-    ok = keys == ["src['data_type']", "v"] and any(isinstance(n, ast.If) and "'internal_tags'insrc" in src(n.test).replace('"', "'").replace(" ", "") for n in walk(fn.node)) and any(isinstance(n, ast.If) and "isinstance(src.get('data_type'),dict)" in src(n.test).replace('"', "'").replace(" ", "") for n in walk(fn.node))
-    ctx.check(ok, ckey(fn, "recursion"), fn.node, "nested data_type and internal_tags are filtered recursively", "the JSON view no longer recurses into data_type / internal_tags")
-    tj = ctx.model.func(f"{LX}:LogixDriver.tags_json")
-    ok = any(isinstance(n, ast.DictComp) and isinstance(n.value, ast.Call) and call_name(n.value) == "_copy_datatype" and src(n.generators[0].iter) == "self._tags.items()" for n in walk(tj.node))
-    ctx.check(ok, ckey(tj, "all-tags"), tj.node, "every uploaded tag is copied through the filter", "tags_json does not filter every tag of self._tags")
+    # the JSON view folded on a witness tag table that carries a class witness under every key the producers store classes under
+    # (at every nesting level: tag, its data type, members, their data types): the result holds no class anywhere, keeps every
+    # other key and value, and the table itself is left alone
+    from ..miniinterp import Obj, run_function
 
+    keys = sorted({"type_class", "_struct_members"} | classy)
+    CLS = Obj(kind="class-witness")
+
+    def with_classes(d):
+        out = dict(d)
+        for k_ in keys:
+            out[k_] = CLS if k_ != "_struct_members" else ([(CLS, 0)], {"b": (0, 1)})
+        return out
+
+    leaf = with_classes({"tag_type": "atomic", "data_type_name": "DINT", "data_type": "DINT", "offset": 0, "array": 0})
+    inner_dt = with_classes({"name": "Inner", "attributes": ["leaf"], "internal_tags": {"leaf": dict(leaf)}, "template": {"structure_size": 4}, "string": None})
+    member = with_classes({"tag_type": "struct", "data_type_name": "Inner", "data_type": inner_dt, "offset": 4, "array": 2})
+    outer_dt = with_classes({"name": "Outer", "attributes": ["m", "x"], "internal_tags": {"m": member, "x": dict(leaf)}, "template": {"structure_size": 12}})
+    tags = {"t1": with_classes({"tag_name": "t1", "tag_type": "atomic", "data_type": "DINT", "data_type_name": "DINT", "dim": 0, "dimensions": [0, 0, 0], "alias": False}),
+            "t2": with_classes({"tag_name": "t2", "tag_type": "struct", "data_type": outer_dt, "data_type_name": "Outer", "dim": 1, "dimensions": [3, 0, 0]})}
+
+    def strip(v):
+        if isinstance(v, dict):
+            return {k_: strip(x) for k_, x in v.items() if k_ not in keys}
+        return v
+
+    def has_class(v):
+        if v is CLS:
+            return True
+        if isinstance(v, dict):
+            return any(has_class(x) for x in v.values())
+        if isinstance(v, (list, tuple)):
+            return any(has_class(x) for x in v)
+        return False
+
+    import copy as _copy
+
+    tj = ctx.model.func(f"{LX}:LogixDriver.tags_json")
+    snapshot = _copy.copy(tags)
+    me = witness_instance(lx, _tags=tags)
+    kind, res = run_function(ctx, lx.module, tj.node, {"self": me}, deep=False)
+    key = ckey(fn, "exclusions")
+    if kind == "unknown":
+        ctx.undecided(key, tj.node, f"tags_json not foldable on the witness tag table: {res}")
+    else:
+        want = strip(tags)
+        untouched = set(tags) == set(snapshot) and all(tags[k_] is snapshot[k_] and all(kk in tags[k_] for kk in keys) for k_ in tags) and "type_class" in outer_dt and "type_class" in member
+        ctx.check(kind == "return" and not has_class(res) and res == want and untouched, key, tj.node, f"class-valued keys {keys} are dropped at every nesting level, everything else is kept, the tag table is left alone",
+                  (f"tags_json on the witness tag table gives {kind} {str(res)[:300]}: " + ("a class / DataType instance is left in the JSON view (json.dumps fails)" if has_class(res) else "keys other than the class-valued ones are lost or changed"
+                                                                                                   if res != want else "the uploaded tag table itself is modified")), keys=keys)
 
 @rule(P, "D5.9", "T-SIB", floor=3)
 def d5_9(ctx):
@@ -339,7 +351,7 @@ def d5_10(ctx):
                     break
             derived.append(top)
         for e in derived:
-            if isinstance(e, ast.Call) and attr_path(e.func) and "log" in attr_path(e.func).lower():
+            if isinstance(e, ast.Call) and attr_path(e.func) and _is_logging_call(".".join(attr_path(e.func).split(".")[:-1]), attr_path(e.func).split(".")[-1]):
                 continue
             vals = {}
             for w in suffixes:
